@@ -227,7 +227,7 @@ class Gen2:
         if r < 0.40:
             return [p + "send M%d()" % self.uniq()]
         if r < 0.48:
-            return [p + rng.choice(["$x = %d" % rng.randint(0, 3), "$x = $x + 1", "$y%d = $x" % self.uniq()])]
+            return [p + rng.choice(["$x = %d" % rng.randint(0, 3), "$x = $x + 1", "$y%d = $x" % self.uniq(), "$x += 1", "$x -= 2"])]
         if r < 0.58:
             self.facts["groups"] += 1
             return [p + "match " + self.group(self.ev)[0]]
@@ -236,7 +236,10 @@ class Gen2:
             if k < 0.4:
                 return [p + "await " + self.fl()]
             if k < 0.5:
-                return [p + "$v%d = await %s" % (self.uniq(), self.fl())]
+                # every assignment operator the grammar accepts, with a flow / action call on the right-hand side
+                op = rng.choice(["=", "=", "+=", "-="])
+                rhs = "await " + self.fl() if rng.random() < 0.7 else "await TestAction(n=%d)" % self.uniq()
+                return [p + "$v%d %s %s" % (self.uniq(), op, rhs)] if op == "=" else [p + "$x %s %s" % (op, rhs)]
             t, g = self.group(self.fl)
             self.facts["groups"] += 1
             if g > 1:
@@ -436,6 +439,10 @@ class Gen1:
 
 # --------------------------------------------------------------------------- the oracle: v2
 PRIM_OPS = ("send", "match", "_new_action_instance")
+# the element kinds a compiled flow may consist of (the steps the interpreter executes); everything else is a composite that
+# should have been expanded, or something nobody will ever execute
+PRIMITIVE_ELEMENTS = {"SpecOp", "Label", "Goto", "ForkHead", "MergeHeads", "WaitForHeads", "Assignment", "Return", "Abort", "Continue", "Break",
+                      "Log", "Print", "Priority", "Global", "CatchPatternFailure", "BeginScope", "EndScope", "If", "While", "When"}
 MAX_STATES = 60000
 
 
@@ -526,6 +533,11 @@ def scan_v2_flow(A, cfg):
                     V.append(("loop-exit-into-foreign-loop:" + kind, "element %d -> %r" % (i, e.label)))
         elif isinstance(e, A.BeginScope):
             S["scopes"] += 1
+        if isinstance(e, dict) and ((e.get("_type") in ("pass_stmt", "stmt") and not e.get("elements")) or e.get("_type") == "doc_string_stmt"):
+            S["noop_placeholders"] = S.get("noop_placeholders", 0) + 1  # `pass` / a comment line / a doc string: a placeholder without statements, stepped over
+        elif type(e).__name__ not in PRIMITIVE_ELEMENTS:
+            # whatever the expander does not know it copies through; the interpreter then skips it ("unknown element")
+            V.append(("non-primitive-element:" + type(e).__name__, "element %d" % i))
     # ---- scopes: forward reachability with slide() head semantics
     if S["scopes"]:
         else_stmt_pos = set()
